@@ -1,0 +1,52 @@
+//go:build verif
+
+// Contracts for govc (/verif): C04 "A one-time output key is bound to at most one transaction" — the in-transaction
+// duplicate filter of validateOutputs. Comment-only file.
+// NOTE for integration: validateOutputs may have only ONE contract in the repo; if another property (C05 sweep) puts it
+// under contract, merge the [no-repeat] postcondition, the OutsOK precondition and the loop invariants below into it.
+
+package common
+
+//@ -- NewInteger(x) is x * 10^Precision as a big integer; no effects. ASSUMED (math.Pow / big.Int arithmetic not modelled).
+//@ assume func NewInteger
+//@   modifies nothing
+//@   ensures val(result) == x * 100000000
+
+//@ -- CheckKey decodes the point (edwards25519, external): no effects on program state. ASSUMED frame.
+//@ -- (crypto.Key).CheckKey: assumed pure contract in crypto/zz_contracts_c05_verif.go
+//@ assume func (s Script) VerifyFormat
+//@   modifies nothing
+
+//@ -- The ghost key locker behind the interface (storage.BadgerStore.LockGhostKeys, verified there: [distinct]): it does not
+//@ -- write any object of the caller; its effect on the key-value store is invisible in package common.
+//@ assume func (l GhostLocker) LockGhostKeys
+//@   modifies nothing
+//@   ensures err == nil ==> forall a, b int :: 0 <= a && a < b && b < len(keys) ==> *keys[a] != *keys[b]
+
+//@ -- OutsOK: shape of a decoded transaction (non-nil outputs and keys) + the typing fact that everything reachable from tx
+//@ -- was allocated before the call.
+//@ spec OutsOK(tx *Transaction) bool = tx != nil && forall a int :: {tx.Outputs[a]} 0 <= a && a < len(tx.Outputs) ==>
+//@     tx.Outputs[a] != nil && !fresh(tx.Outputs[a]) && !fresh(tx.Outputs[a].Keys) &&
+//@     forall i int :: {tx.Outputs[a].Keys[i]} 0 <= i && i < len(tx.Outputs[a].Keys) ==> tx.Outputs[a].Keys[i] != nil && !fresh(tx.Outputs[a].Keys[i])
+
+//@ func (tx *Transaction) validateOutputs
+//@   property C04, C05
+//@   requires OutsOK(tx) && !isnil(store)
+//@   requires tx != nil && store != nil && OutputsOK(tx) && OutKeysOK(tx) && OutKeysOld(tx) -- C05 sweep (see zz_contracts_c05_verif.go)
+//@   modifies nothing
+//@   ensures [no-repeat] err == nil ==> forall a, b, i, j int :: 0 <= a && a < len(tx.Outputs) && 0 <= b && b < len(tx.Outputs) && 0 <= i && i < len(tx.Outputs[a].Keys) && 0 <= j && j < len(tx.Outputs[b].Keys) && (a != b || i != j) ==> *tx.Outputs[a].Keys[i] != *tx.Outputs[b].Keys[j]
+//@   loop 0 invariant [amount] val(outputAmount) >= 0
+//@   loop 0 invariant [c05] OutKeysOK(tx) && fresh(ghostKeys)
+//@   loop 0 invariant [stable] forall a, i int :: {tx.Outputs[a].Keys[i]} 0 <= a && a < len(tx.Outputs) && 0 <= i && i < len(tx.Outputs[a].Keys) ==> tx.Outputs[a].Keys[i] == old(tx.Outputs[a].Keys[i]) && *tx.Outputs[a].Keys[i] == old(*tx.Outputs[a].Keys[i])
+//@   loop 0 invariant [own] fresh(ghostKeys)
+//@   loop 0 invariant [seen] forall a, i int :: {tx.Outputs[a].Keys[i]} 0 <= a && a <= rangeindex && 0 <= i && i < len(tx.Outputs[a].Keys) ==> has(ghostKeysFilter, *tx.Outputs[a].Keys[i]) && ghostKeysFilter[*tx.Outputs[a].Keys[i]]
+//@   loop 0 invariant [distinct] forall a, b, i, j int :: 0 <= a && a <= rangeindex && 0 <= b && b <= rangeindex && 0 <= i && i < len(tx.Outputs[a].Keys) && 0 <= j && j < len(tx.Outputs[b].Keys) && (a != b || i != j) ==> *tx.Outputs[a].Keys[i] != *tx.Outputs[b].Keys[j]
+//@   loop 1 invariant [amount] val(outputAmount) >= 0
+//@   loop 1 invariant [c05] OutKeysOK(tx) && fresh(ghostKeys)
+//@   loop 1 invariant [stable] forall a, i int :: {tx.Outputs[a].Keys[i]} 0 <= a && a < len(tx.Outputs) && 0 <= i && i < len(tx.Outputs[a].Keys) ==> tx.Outputs[a].Keys[i] == old(tx.Outputs[a].Keys[i]) && *tx.Outputs[a].Keys[i] == old(*tx.Outputs[a].Keys[i])
+//@   loop 1 invariant [own] fresh(ghostKeys)
+//@   loop 1 invariant [seen] forall a, i int :: {tx.Outputs[a].Keys[i]} 0 <= a && a <= rangeindex_0 && 0 <= i && i < len(tx.Outputs[a].Keys) ==> has(ghostKeysFilter, *tx.Outputs[a].Keys[i]) && ghostKeysFilter[*tx.Outputs[a].Keys[i]]
+//@   loop 1 invariant [seen-cur] forall i int :: {tx.Outputs[rangeindex_0 + 1].Keys[i]} 0 <= i && i <= rangeindex ==> has(ghostKeysFilter, *tx.Outputs[rangeindex_0 + 1].Keys[i]) && ghostKeysFilter[*tx.Outputs[rangeindex_0 + 1].Keys[i]]
+//@   loop 1 invariant [distinct] forall a, b, i, j int :: 0 <= a && a <= rangeindex_0 && 0 <= b && b <= rangeindex_0 && 0 <= i && i < len(tx.Outputs[a].Keys) && 0 <= j && j < len(tx.Outputs[b].Keys) && (a != b || i != j) ==> *tx.Outputs[a].Keys[i] != *tx.Outputs[b].Keys[j]
+//@   loop 1 invariant [distinct-cur] forall a, i, j int :: 0 <= a && a <= rangeindex_0 && 0 <= i && i < len(tx.Outputs[a].Keys) && 0 <= j && j <= rangeindex ==> *tx.Outputs[a].Keys[i] != *tx.Outputs[rangeindex_0 + 1].Keys[j]
+//@   loop 1 invariant [distinct-own] forall i, j int :: 0 <= i && i < j && j <= rangeindex ==> *tx.Outputs[rangeindex_0 + 1].Keys[i] != *tx.Outputs[rangeindex_0 + 1].Keys[j]
